@@ -11,6 +11,17 @@ RULE = ("generated projects x {2 fresh processes, 3 sampled permutations of ever
         "project loads successfully and has >= 2 keys in some object; distinct = distinct project text")
 
 
+# error kinds raised while a file is being decoded (serde visits the entries in document order)
+DECODE_STAGE = {"Serde", "InvalidKey", "DuplicateKey", "UnknownFormatter", "UnexpectedToken", "InvalidForeignKeyArgs", "EmptyRange", "InvalidRangeType",
+                "NestedRanges", "InvalidFallback", "MultipleFallbacks", "MissingFallback", "RangeSubkeys", "RangeNull", "RangeNumberType", "RangeParse",
+                "InvalidBoundEnd", "ImpossibleRange", "LocaleFileNotFound", "ConfigFileDeser", "ConfigNotPresent"}
+
+
+def norm_msg(m):
+    import re
+    return re.sub(r"verif_ph_\d+_\w+", "verif_ph", m) if isinstance(m, str) else m
+
+
 def permute_tree(rng, j):
     if isinstance(j, dict) and "o" in j:
         return {"o": rng.shuffle([[k, permute_tree(rng, v)] for k, v in j["o"]])}
@@ -57,7 +68,12 @@ def run(ctx):
                 "files": {(None, "en"): proj.O(pairs)}, "extra_cfg": False, "meta": {}}
     # F13 witnesses: keys equal after trimming, in both orders, at top level and inside a subkey group
     corpus = [dup_project([("a", "first"), ("a ", "second"), ("b", "x")]), dup_project([("a ", "second"), ("b", "x"), ("a", "first")]),
-              dup_project([("g", proj.O([("k", "1"), (" k", "2")])), ("b", "x")]), dup_project([("a", "same"), ("a", "same")])]
+              dup_project([("g", proj.O([("k", "1"), (" k", "2")])), ("b", "x")]), dup_project([("a", "same"), ("a", "same")]),
+              # several errors of the later stages: the diagnostic must not depend on the order of the keys
+              dup_project([("a", "$t(b)"), ("b", "$t(a)"), ("c", "plain")]), dup_project([("c", "plain"), ("b", "$t(a)"), ("a", "$t(b)")]),
+              dup_project([("x", "$t(nope_one)"), ("y", "$t(nope_two)")]), dup_project([("y", "$t(nope_two)"), ("x", "$t(nope_one)")]),
+              dup_project([("p_one", "1"), ("p_other", "n"), ("p", "clash"), ("q_one", "1"), ("q_other", "n"), ("q", "clash")]),
+              dup_project([("m", "$t(a, {\"count\": \"x\"})"), ("a", proj.A([proj.A(["v", proj.U(1)]), proj.A(["w"])])), ("n", "$t(zz)")])]
     projects = corpus + [proj.gen_project(rng) for _ in range(ctx.budget(250, 5000))]
     base = run_projects(ctx, bins["json"], projects)
     again = run_projects(ctx, bins["json"], projects, want_model=False)
@@ -74,9 +90,16 @@ def run(ctx):
         outs = run_projects(ctx, bins["json"], perm, want_model=False)
         for p, q, a, b in zip(projects, perm, base, outs):
             ctx.count("permutation")
+            ma, mb = norm_msg(a["impl"].get("result", {}).get("msg")), norm_msg(b["impl"].get("result", {}).get("msg"))
+            if a["ci"] == b["ci"] and "err" in a["ci"] and a["ci"]["err"] not in DECODE_STAGE and ma != mb:
+                report_violation(ctx, "determinism:key-order-changes-diagnostic", {
+                    "case": project_text(p), "permuted": project_text(q), "first": ma, "second": mb,
+                    "expected_by_spec": "identical diagnostics", "harness": "parser_h pipeline"})
+                continue
             if a["ci"] != b["ci"]:
-                if "err" in a["ci"] and "err" in b["ci"]:
-                    ctx.count("both-rejected-different-first-error")     # which of several errors is met first may depend on order
+                if "err" in a["ci"] and "err" in b["ci"] and (a["ci"]["err"] in DECODE_STAGE or b["ci"]["err"] in DECODE_STAGE):
+                    # files are decoded in document order: which of several *decoding* errors is met first depends on it
+                    ctx.count("both-rejected-different-first-decoding-error")
                     continue
                 report_violation(ctx, "determinism:key-order-changes-result", {
                     "case": project_text(p), "permuted": project_text(q), "diff": proj.first_diff(a["ci"], b["ci"]),
